@@ -93,22 +93,50 @@ def rule_Q2(ctx):
         raise AnalysisError("Q2", where(tp), "track body loop not found")
     loop = wl[0]
     lp = cfg.loop_of(loop)
-    pushbacks = [a for a in ast.walk(loop) if isinstance(a, ast.Assign) and norm(a.value) in ("[text] + lines",)]
-    ok = len(pushbacks) == 1
-    holder = pushbacks[0]._parent if ok else None
-    ok = ok and isinstance(holder, ast.If) and isinstance(holder.body[-1], ast.Break)
-    det = ""
-    if ok:
-        # the guard must be exactly the truthiness of _TRACK_LINE_REGEX.match(text)
-        g = holder.test
-        val = g
-        if isinstance(g, ast.Name):
-            defs = [a for a in ast.walk(loop) if isinstance(a, ast.Assign) and norm(a.targets[0]) == g.id and a.lineno < holder.lineno]
-            val = max(defs, key=lambda a: a.lineno).value if defs else g
-        ok = norm(val) == "_TRACK_LINE_REGEX.match(text)"
-        det = "" if ok else f"the next-track test is `{norm(g)}` = `{norm(val)}`: it recognises fewer spellings than the (case-insensitive) TRACK regex, so such a TRACK line is swallowed into the previous track"
-    ctx.ob("Q2", holder or loop, "a line is the start of the next track exactly when the TRACK regex matches it; it is then pushed back and the loop ends", ok, det, inst="next-track")
-    first = [a for a in own_nodes(tp) if isinstance(a, ast.Assign) and norm(a.value) == "_TRACK_LINE_REGEX.match(text)" and not any(n is a for n in ast.walk(loop))]
+    # per iteration path: the line is pushed back and the loop left exactly when the TRACK regex matched it
+    def _track_truth(pr):
+        out = None
+        for c, t, _ in pr.conds:
+            neg, x = False, c
+            while x.startswith("not(") and x.endswith(")"):
+                x, neg = x[4:-1], not neg
+            for pre, pol in (("truthy(_TRACK_LINE_REGEX.match(", True), ("Is(_TRACK_LINE_REGEX.match(", False), ("IsNot(_TRACK_LINE_REGEX.match(", True)):
+                if x.startswith(pre):
+                    out = (t != neg) == pol
+        return out
+
+    def _pushback(st):
+        if isinstance(st, ast.Assign) and len(st.targets) == 1 and isinstance(st.targets[0], ast.Name) and isinstance(st.value, ast.BinOp) and isinstance(st.value.op, ast.Add) \
+                and isinstance(st.value.left, ast.List) and len(st.value.left.elts) == 1 and isinstance(st.value.left.elts[0], ast.Name) \
+                and isinstance(st.value.right, ast.Name) and st.value.right.id == st.targets[0].id:
+            return st.targets[0].id, st.value.left.elts[0].id
+        if isinstance(st, ast.Expr) and isinstance(st.value, ast.Call) and isinstance(st.value.func, ast.Attribute) and st.value.func.attr == "insert" \
+                and len(st.value.args) == 2 and norm(st.value.args[0]) == "0" and isinstance(st.value.args[1], ast.Name) and isinstance(st.value.func.value, ast.Name):
+            return st.value.func.value.id, st.value.args[1].id
+        return None
+
+    ok, det, n_next, holder = True, "", 0, None
+    for kind, path, edge in cfg.iteration_paths(lp):
+        pr = _walk(ctx, tp, cfg, path)
+        tt = _track_truth(pr)
+        pbs = [s_.ast for s_ in pr.steps if s_.kind == "stmt" and s_.ast is not None and _pushback(s_.ast)]
+        if tt is True:
+            n_next += 1
+            if kind != "exit" or len(pbs) != 1:
+                ok, det = False, f"a line the TRACK regex matches is {'kept in the previous track' if kind != 'exit' else 'consumed instead of pushed back'}"
+            else:
+                holder = holder or pbs[0]
+                # what is pushed back is the line just read
+                lines_v, text_v = _pushback(pbs[0])
+                got = pr.env.get(text_v)
+                if got is None or not got.key().replace("~", "").startswith("sub(get_nonempty_entry("):
+                    ok, det = False, "the text pushed back is not the line just read"
+        elif pbs:
+            ok, det = False, "a line is pushed back and ends the track although the TRACK regex did not match it (such a line is parsed as a track header next)"
+    ok = ok and n_next >= 1
+    ctx.ob("Q2", holder or loop, "a line is the start of the next track exactly when the TRACK regex matches it; it is then pushed back and the loop ends", ok,
+           det or ("" if n_next else "no path tests the TRACK regex"), inst="next-track")
+    first = [a for a in own_nodes(tp) if isinstance(a, ast.Call) and norm(a.func) == "_TRACK_LINE_REGEX.match" and not any(n is a for n in ast.walk(loop))]
     ctx.ob("Q2", tp, "the track header itself is recognised by the same TRACK regex", len(first) == 1, "", inst="first-track")
     # ---- per iteration path, on value-flow terms: which regex matched decides what happens to the line
     def match_truth(pr, regex):
